@@ -19,12 +19,14 @@ prop, mutdir, name = sys.argv[1], sys.argv[2].rstrip('/'), sys.argv[3]
 tiers = ['quick']
 checks = [prop]
 base = None
+gotest = None
 args = sys.argv[4:]
 while args:
     a = args.pop(0)
     if a == '--tiers': tiers = args.pop(0).split(',')
     elif a == '--checks': checks = args.pop(0).split(',')
     elif a == '--base': base = args.pop(0)
+    elif a == '--gotest': gotest = args.pop(0)
 if base is None:
     base = sh('git rev-parse HEAD', cwd=os.path.dirname(mutdir).replace('-out', '')).stdout.strip() or 'HEAD'
 wt = f'/tmp/ev-{name}'
@@ -36,8 +38,19 @@ try:
     def build(tag):
         return sh('go build -o zy-bin . && go build ./... && go build -tags verif ./...', cwd=wt)
     def demo():
-        if os.path.exists(f'{mutdir}/demo.php') and not os.path.exists(f'{mutdir}/run_demo.sh'):
+        if os.path.exists(f'{mutdir}/demo.php') and not os.path.exists(f'{mutdir}/run_demo.sh') and not os.path.exists(f'{mutdir}/demo.sh') and not gotest:
             p = sh(f'timeout -s KILL 120 ./zy-bin {mutdir}/demo.php 2>&1', cwd=wt)
+            return p.stdout + (f'\n[exit {p.returncode}]' if p.returncode else '')
+        if gotest:
+            import re as _re
+            pkg, pat = gotest.split(':')
+            shutil.copy(f'{mutdir}/demo_test.go', f'{wt}/{pkg}/zz_demo_test.go')
+            p = sh(f'timeout -s KILL 900 go test -vet=off -count=1 -run {pat} -v ./{pkg}/ 2>&1', cwd=wt)
+            os.remove(f'{wt}/{pkg}/zz_demo_test.go')
+            out = _re.sub(r'\(?\d+\.\d+s\)?', '', p.stdout)
+            return out + (f'\n[exit {p.returncode}]' if p.returncode else '')
+        if os.path.exists(f'{mutdir}/demo.sh') and not os.path.exists(f'{mutdir}/run_demo.sh'):
+            p = sh(f'timeout -s KILL 300 sh {mutdir}/demo.sh {wt}/zy-bin 2>&1', cwd=wt)
             return p.stdout + (f'\n[exit {p.returncode}]' if p.returncode else '')
         if os.path.exists(f'{mutdir}/run_demo.sh'):
             p = sh(f'timeout -s KILL 300 sh {mutdir}/run_demo.sh {wt}/zy-bin 2>&1', cwd=wt)
@@ -59,7 +72,7 @@ try:
     if b.returncode: sys.exit('pristine build failed: ' + b.stderr[-500:])
     d0 = demo()
     exp = open(f'{mutdir}/demo.expected', errors='replace').read() if os.path.exists(f'{mutdir}/demo.expected') else None
-    meta['demo_unchanged_matches_expected'] = (d0 is not None and exp is not None and d0.strip() == exp.strip())
+    meta['demo_unchanged_matches_expected'] = (d0 is not None and exp is not None and d0.strip() == exp.strip()) or (gotest is not None and d0 is not None and '[exit' not in d0)
     a = sh(f'git apply {mutdir}/patch.diff', cwd=wt)
     if a.returncode: sys.exit('patch does not apply: ' + a.stderr)
     b = build('')
